@@ -263,6 +263,77 @@ impl<T: AsyncTransport + Unpin> AsyncTransport for FaultyTransport<T> {
     }
 }
 
+/// Development aid (`VAPI_TRACE_MSGS=1`): prints every message that crosses a transport end.
+pub struct Logged<T> {
+    inner: T,
+    name: String,
+    on: bool,
+    /// rewrite the minor version of an outgoing `Connect2` (see `Proto::Capped`)
+    cap_minor: Option<u32>,
+}
+
+impl<T> Logged<T> {
+    pub fn new(inner: T, name: String) -> Self {
+        Logged { inner, name, on: std::env::var_os("VAPI_TRACE_MSGS").is_some(), cap_minor: None }
+    }
+
+    pub fn capped(mut self, minor: Option<u32>) -> Self {
+        self.cap_minor = minor;
+        self
+    }
+}
+
+impl<T: AsyncTransport + Unpin> AsyncTransport for Logged<T>
+where
+    T::Error: std::fmt::Debug,
+{
+    type Error = T::Error;
+
+    fn receive_poll(self: Pin<&mut Self>, cx: &mut Context) -> Poll<Result<Message, Self::Error>> {
+        let this = self.get_mut();
+        let r = Pin::new(&mut this.inner).receive_poll(cx);
+        if this.on {
+            match &r {
+                Poll::Ready(Ok(m)) => eprintln!("[msg] {} <- {:?}", this.name, m.kind()),
+                Poll::Ready(Err(e)) => eprintln!("[msg] {} <- ERR {:?}", this.name, e),
+                Poll::Pending => {}
+            }
+        }
+        r
+    }
+
+    fn send_poll_ready(self: Pin<&mut Self>, cx: &mut Context) -> Poll<Result<(), Self::Error>> {
+        let this = self.get_mut();
+        Pin::new(&mut this.inner).send_poll_ready(cx)
+    }
+
+    fn send_start(self: Pin<&mut Self>, msg: Message) -> Result<(), Self::Error> {
+        let this = self.get_mut();
+        if this.on {
+            eprintln!("[msg] {} -> {:?}", this.name, msg.kind());
+        }
+        let msg = match (msg, this.cap_minor) {
+            (Message::Connect2(mut c), Some(minor)) => {
+                c.minor_version = c.minor_version.min(minor);
+                Message::Connect2(c)
+            }
+            (m, _) => m,
+        };
+        Pin::new(&mut this.inner).send_start(msg)
+    }
+
+    fn send_poll_flush(self: Pin<&mut Self>, cx: &mut Context) -> Poll<Result<(), Self::Error>> {
+        let this = self.get_mut();
+        let r = Pin::new(&mut this.inner).send_poll_flush(cx);
+        if this.on {
+            if let Poll::Ready(x) = &r {
+                eprintln!("[msg] {} flush {:?}", this.name, x.as_ref().map(|_| ()));
+            }
+        }
+        r
+    }
+}
+
 // ---------------------------------------------------------------------------------------------
 // results
 
@@ -300,6 +371,10 @@ pub enum Proto {
     V20,
     /// `ClientBuilder::connect1`: protocol 1.14
     V14,
+    /// `Client::connect` against a broker that only speaks up to 1.<minor> (15..=19). The real
+    /// broker cannot be restricted, so the client's transport lowers the minor version its
+    /// `Connect2` offers; broker and client then both negotiate and run 1.<minor>.
+    Capped(u8),
 }
 
 pub struct ClientNet {
@@ -337,6 +412,12 @@ impl Net {
         let idx = self.clients.len();
         let name = format!("c{}", idx);
         let (a, b) = tkind.pair();
+        let cap = match proto {
+            Proto::Capped(m) => Some(m as u32),
+            _ => None,
+        };
+        let a = Logged::new(a, format!("client:{}", name)).capped(cap);
+        let b = Logged::new(b, format!("conn:{}", name));
         let ctl = Rc::new(FaultCtl::default());
         let mut bh = self.broker.clone();
         let conn_handle: Rc<RefCell<Option<ConnectionHandle>>> = Rc::new(RefCell::new(None));
@@ -359,7 +440,7 @@ impl Net {
         let t = FaultyTransport::new(a, ctl.clone());
         let (client_task, client_result) = self.sim.spawn_out(&format!("client:{}", name), counted(async move {
             let client = match proto {
-                Proto::V20 => Client::connect(t).await,
+                Proto::V20 | Proto::Capped(_) => Client::connect(t).await,
                 Proto::V14 => Client::builder(t).connect1().await,
             };
             let client = match client {
